@@ -589,6 +589,10 @@ func (cmd *Command) lint() int {
 					r.End.Offset = 0
 				}
 			}
+			// The results arrive in map iteration order; the encoded
+			// run must not depend on it.
+			sort.Strings(res.CheckedFiles)
+			sortDiagnostics(res.Diagnostics)
 			err := gob.NewEncoder(os.Stdout).Encode(res)
 			if err != nil {
 				fmt.Fprintf(os.Stderr, "failed writing output: %s\n", err)
@@ -633,46 +637,52 @@ func mergeRuns(runs []run) []diagnostic {
 	return relevantDiagnostics
 }
 
+// sortDiagnostics orders diagnostics by position, message, category, end and
+// build name.
+func sortDiagnostics(diagnostics []diagnostic) {
+	sort.Slice(diagnostics, func(i, j int) bool {
+		di := diagnostics[i]
+		dj := diagnostics[j]
+		pi := di.Position
+		pj := dj.Position
+
+		if pi.Filename != pj.Filename {
+			return pi.Filename < pj.Filename
+		}
+		if pi.Line != pj.Line {
+			return pi.Line < pj.Line
+		}
+		if pi.Column != pj.Column {
+			return pi.Column < pj.Column
+		}
+		if di.Message != dj.Message {
+			return di.Message < dj.Message
+		}
+		// Diagnostics that only differ in their build name have to end up
+		// next to each other for the de-duplication below, so the build
+		// name is compared last.
+		if di.Category != dj.Category {
+			return di.Category < dj.Category
+		}
+		if ei, ej := di.End, dj.End; ei != ej {
+			if ei.Filename != ej.Filename {
+				return ei.Filename < ej.Filename
+			}
+			if ei.Line != ej.Line {
+				return ei.Line < ej.Line
+			}
+			if ei.Column != ej.Column {
+				return ei.Column < ej.Column
+			}
+		}
+		return di.BuildName < dj.BuildName
+	})
+}
+
 // printDiagnostics prints the diagnostics and exits the process.
 func (cmd *Command) printDiagnostics(cs []*lint.Analyzer, diagnostics []diagnostic) int {
 	if len(diagnostics) > 1 {
-		sort.Slice(diagnostics, func(i, j int) bool {
-			di := diagnostics[i]
-			dj := diagnostics[j]
-			pi := di.Position
-			pj := dj.Position
-
-			if pi.Filename != pj.Filename {
-				return pi.Filename < pj.Filename
-			}
-			if pi.Line != pj.Line {
-				return pi.Line < pj.Line
-			}
-			if pi.Column != pj.Column {
-				return pi.Column < pj.Column
-			}
-			if di.Message != dj.Message {
-				return di.Message < dj.Message
-			}
-			// Diagnostics that only differ in their build name have to end up
-			// next to each other for the de-duplication below, so the build
-			// name is compared last.
-			if di.Category != dj.Category {
-				return di.Category < dj.Category
-			}
-			if ei, ej := di.End, dj.End; ei != ej {
-				if ei.Filename != ej.Filename {
-					return ei.Filename < ej.Filename
-				}
-				if ei.Line != ej.Line {
-					return ei.Line < ej.Line
-				}
-				if ei.Column != ej.Column {
-					return ei.Column < ej.Column
-				}
-			}
-			return di.BuildName < dj.BuildName
-		})
+		sortDiagnostics(diagnostics)
 
 		filtered := []diagnostic{
 			diagnostics[0],
